@@ -160,6 +160,10 @@ func dModes(g *G) {
 		if g.R.Intn(3) == 0 {
 			y.E = x.E + g.R.between(-c.P-2, c.P+2)
 		}
+		if g.R.Intn(10) == 0 { // more than 128 discarded digits
+			k := g.R.between(129, 180)
+			x = finDec(x.N, g.R.digits(c.P+k), x.E-k)
+		}
 		if g.R.Intn(5) == 0 {
 			x.E = c.Emin - g.R.between(0, c.P+3)
 			if c.Emin < -50000 {
@@ -251,6 +255,14 @@ func dRel(g *G) {
 		ev := GEv{K: "g", Gk: "mono", Op: "round", Ctx: c}
 		neg := base.N
 		var xs []Dec
+		if g.R.Intn(8) == 0 && c.P > 0 { // more than 128 digits are discarded (beyond the power-of-ten table)
+			k := g.R.between(129, 200)
+			b = new(bigIntT).Mul(b, new(bigIntT).Exp(bigInt(10), bigInt(int64(k)), nil))
+			if g.R.bool() {
+				b.Add(b, g.R.digits(k-1))
+			}
+			base.E -= k
+		}
 		reform := g.R.Intn(3) == 0 // the same ascending values in differing representations (trailing zeros, extra low digits)
 		for j := 0; j < 8; j++ {
 			xj := finDec(neg, b, base.E)
